@@ -87,16 +87,17 @@ def run(rep, tier, seed, budget):
                  {"alphabet": ALPHA, "L": "1..3", "available": "0..3"})
 
     # ---- C: end to end through selfies.decoder
-    CH = 24 if tier == "quick" else 300
+    CH = 24 if tier == "quick" else 300   # with fewer than 3 symbols present, Q = d*16 or d*256: targets clip to atom 0 for large d
 
     def path_c(eng, col):
         ctx.reset()
         what = int(fresh_int("what", 0, 1))
-        L = int(fresh_int("L", 1, 2 if (tier == "quick" or what == 1) else 3))
-        toks = make_tokens("i", L, DOC_INDEX + ["[F]"])
+        L = int(fresh_int("L", 1, 2 if what == 1 else 3))
+        avail = int(fresh_int("avail", 1, L)) if what == 0 else L   # ring: the string may end inside the index
+        toks = make_tokens("i", avail, DOC_INDEX + ["[F]"])
         want_q = z3.IntVal(0)
-        for t in toks:
-            want_q = want_q * 16 + doc_digit_expr(t)
+        for j in range(L):
+            want_q = want_q * 16 + doc_digit_expr(toks[j] if j < avail else None)
         if what == 0:
             m_ = CH
             x = symstr.TokStr(["[C]"] * m_ + ["[Ring%d]" % L] + toks)
@@ -114,8 +115,11 @@ def run(rep, tier, seed, budget):
             col.sample({"what": "ring", "L": L, "ring_bonds": rb})
             mdl = eng.find_model(bads)
             if mdl is not None:
-                col.candidate({"prop": "C16", "kind": "index_e2e", "what": "ring", "chain": m_,
-                               "symbols": [model_value(mdl, t) for t in toks]})
+                if avail < L:
+                    col.candidate({"prop": "C16", "kind": "index", "symbols": [model_value(mdl, t) for t in toks] + [None] * (L - avail)})
+                else:
+                    col.candidate({"prop": "C16", "kind": "index_e2e", "what": "ring", "chain": m_,
+                                   "symbols": [model_value(mdl, t) for t in toks]})
         else:
             m_ = CH
             x = symstr.TokStr(["[C]", "[Branch%d]" % L] + toks + ["[O]"] * m_ + ["[N]"])
